@@ -21,6 +21,8 @@ import XsVerif.Model.Modes
 import XsVerif.Lemmas.Modes
 import XsVerif.Model.AttrDefaults
 import XsVerif.Lemmas.AttrDefaults
+import XsVerif.Model.NsLeak
+import XsVerif.Lemmas.NsStack
 
 namespace XsVerif.Props.C04
 open XsVerif.Modes
@@ -470,6 +472,71 @@ example : Run.allSharedL [.err 1, .scope true [.err 2, .scope true [.err 3]], .e
 theorem unshared_scope_counterexample :
     Run.reachedL [.scope false [.err 7]] = [7] ∧ Run.laxL [.scope false [.err 7]] = [] := by decide
 
+/-! ### the prefix map at the end of an element (identity fields with prefix-dependent values)
+
+  The fields of an identity constraint are collected at the END of the selected element, after its
+  children were processed.  A QName-valued field must then be resolved with the declarations in
+  scope of the element itself, whatever its children (re)declared.  This holds for the call pattern
+  of the code (`NsMapper.visit`: enter, children, `set_xmlns_context` again) — for validation and for
+  decoding alike, both run this pattern — and fails without the end-of-element call. -/
+section NsScope
+open XsVerif.NsMapper XsVerif.NsMapper.Stack XsVerif.NsLeak
+
+mutual
+theorem specObs_end_eq_key (ns0 : Map) : ∀ t : Tree,
+    (specObs ns0 t).map (fun x => (x.1, x.2.2.1)) = (specObs ns0 t).map (fun x => (x.1, x.2.1))
+  | .node id tag attrs decl ch => by
+    simp only [specObs, List.map_cons]
+    rw [specObsList_end_eq_key (Map.update ns0 decl) ch]
+theorem specObsList_end_eq_key (ns0 : Map) : ∀ ts : List Tree,
+    (specObsList ns0 ts).map (fun x => (x.1, x.2.2.1)) = (specObsList ns0 ts).map (fun x => (x.1, x.2.1))
+  | [] => by simp [specObsList]
+  | t :: ts => by
+    simp only [specObsList, List.map_append]
+    rw [specObs_end_eq_key ns0 t, specObsList_end_eq_key ns0 ts]
+end
+
+/-- for every element of every document: the map in force when the element ends is the map of the
+    element's own scope (initial map updated by the declarations on the path root → element) -/
+theorem ns_scope_at_element_end (v : Variant) (t : Tree) (m0 : Mapper) (hd : SibDistinct t)
+    (h0 : m0.stack = []) :
+    endPurged v t m0 = (specObs m0.ns t).map (fun x => (x.1, x.2.2.1)) := by
+  have h := (visit_spec v t hd 0 m0 [] m0.ns m0.rev [] (by intro c hc; cases hc)
+    (Or.inl ⟨h0, rfl, rfl⟩) (by simp)).2
+  unfold endPurged
+  rw [← h, List.map_map]
+  rfl
+
+/-- … and it does not depend on the children: it equals the map right after entering the element -/
+theorem ns_scope_children_independent (v : Variant) (t : Tree) (m0 : Mapper) (hd : SibDistinct t)
+    (h0 : m0.stack = []) :
+    (visit v .stacked 0 t m0).2.map (fun o => (o.id, o.nsAtAttrs)) =
+      (visit v .stacked 0 t m0).2.map (fun o => (o.id, o.nsAtKey)) := by
+  have h := (visit_spec v t hd 0 m0 [] m0.ns m0.rev [] (by intro c hc; cases hc)
+    (Or.inl ⟨h0, rfl, rfl⟩) (by simp)).2
+  have e1 : (visit v .stacked 0 t m0).2.map (fun o => (o.id, o.nsAtAttrs)) =
+      ((visit v .stacked 0 t m0).2.map proj).map (fun x => (x.1, x.2.2.1)) := by
+    rw [List.map_map]; rfl
+  have e2 : (visit v .stacked 0 t m0).2.map (fun o => (o.id, o.nsAtKey)) =
+      ((visit v .stacked 0 t m0).2.map proj).map (fun x => (x.1, x.2.1)) := by
+    rw [List.map_map]; rfl
+  rw [e1, e2, h]
+  exact specObs_end_eq_key m0.ns t
+
+/-- witness: `<root xmlns:p="urn:a"><item code="p:x"><tail xmlns:p="urn:b"/></item></root>` — with the
+    end-of-element call the field `@code` of `item` (id 1) is resolved with p ↦ urn:a, without it with
+    the binding p ↦ urn:b leaked by its last child.  Replayed on the real code (family Q). -/
+theorem ns_leak_counterexample :
+    let t : Tree := .node 0 ⟨"", "root"⟩ [] [("p", "urn:a")]
+      [.node 1 ⟨"", "item"⟩ [] [] [.node 2 ⟨"", "tail"⟩ [] [("p", "urn:b")] []]]
+    let m0 : Mapper := ⟨[], [], []⟩
+    ((endPurged .repaired t m0).map fun x => (x.1, x.2.get "p")) =
+      [(0, some "urn:a"), (1, some "urn:a"), (2, some "urn:b")] ∧
+    (((endNoPurge .repaired 0 t m0).2).map fun x => (x.1, x.2.get "p")) =
+      [(0, some "urn:b"), (1, some "urn:b"), (2, some "urn:b")] := by decide
+
+end NsScope
+
 /-! ### value constraints and the document-level state (Model/AttrDefaults.lean)
 
   `verdicts_agree` needs `events sv = events sd`.  The part of the descent where that equality could
@@ -551,7 +618,7 @@ theorem constrained_idref_is_reference (doc : List Elem) (e : Elem) (d : Decl) (
   have hd : d ∈ e.decls := List.mem_of_find?_eq_some hl
   have hmem : (d.name, v) ∈ effective ud e.decls e.attrs :=
     (processed_attributes_spec ud e.decls e.attrs d.name v).mpr (Or.inr ⟨hm, d, hd, rfl, hu, hv⟩)
-  have hpost : Act.post .idref v ∈ attrActs isXsi xsi e.decls (d.name, v) := by
+  have hpost : Act.post .idref v ∈ attrActs isXsi xsi e.decls (!hasKey d.name e.attrs) (d.name, v) := by
     simp [attrActs, hl, hu, declActs, hk]
   have hact : Act.post .idref v ∈ docActsWith effective isXsi ud xsi doc := by
     simp only [docActsWith, List.mem_flatMap]
@@ -577,6 +644,13 @@ example : run (fun s => [s]) (fun _ => none) (fun _ => false) [] false true []
 example : run (fun s => [s]) (fun _ => none) (fun _ => false) [] false true []
     [⟨[⟨"ref", .optional, none, some "a1", .idref⟩], [], none⟩,
      ⟨[⟨"id", .optional, none, none, .id⟩], [("id", "a1")], none⟩] = [] := by decide
+
+/-- an injected xs:QName literal is not resolved with the prefixes of the instance (attributes.py:745-751);
+    the default of an element's simple content still is (elements.py) -/
+example : run (fun s => [s]) (fun s => if s = "t:nm" then some "t" else none) (fun _ => false) ["p"] false true []
+    [⟨[⟨"q", .optional, none, some "t:nm", .qname⟩], [], none⟩,
+     ⟨[⟨"q", .optional, none, some "t:nm", .qname⟩], [("q", "t:nm")], none⟩,
+     ⟨[], [], some (⟨none, some "t:nm", .qname⟩, "")⟩] = [.unmapped "t", .unmapped "t"] := by decide
 
 /-- the same for the simple content of an empty element declared with a default / fixed IDREF -/
 theorem constrained_text_idref_is_reference (doc : List Elem) (e : Elem) (td : TextDecl) (v : String)
